@@ -24,8 +24,8 @@ structure Defects where
   subNodesSkipped : Bool
   /-- #2 authorisation_service.rs:594: the room a row LEAVES is looked up with the id of the room it enters -/
   oldRoomLookup : Bool
-  /-- #3 deletion.rs:91-93, authorisation_service.rs:488-490: a reference deletion re-dates and re-signs the
-      source row with the caller's key, without any right check, even when the named reference does not exist -/
+  /-- #3 (first half) deletion.rs:91-93, authorisation_service.rs:488-490: a reference deletion re-dates and
+      re-signs the source row with the caller's key even when the named reference does not exist -/
   refDeletionResign : Bool
   /-- #32 authorisation_service.rs:492-497: the guard against deleting references of `sys.Room` (and the
       other authorisation entities) compares the reference's SHORT source entity with the full names, so it
@@ -34,10 +34,20 @@ structure Defects where
   /-- deletion.rs:110-114: deleting a row removes every reference that points TO it, whatever room the source
       row of the reference is in, without a right check there (and without a deletion record) -/
   incomingRefsUnchecked : Bool
+  /-- second half of #3, authorisation_service.rs:502-516: when the named reference exists, the right is judged on
+      the author of the REFERENCE (own reference: own-rows right) while the row that is re-dated and re-signed
+      may be somebody else's -/
+  refRightOnEdgeAuthor : Bool
 deriving Repr, DecidableEq
 
-def Defects.asImplemented : Defects := ⟨true, true, true, true, true⟩
-def Defects.none : Defects := ⟨false, false, false, false, false⟩
+/-- what /repo does now. Fixed upstream (switch turned off here): sub-entities of an unchanged parent (c887d69),
+    departing-room lookup (cfb7678), re-signing when no reference is removed (456214b), the guard on references
+    of authorisation entities (f1df104). Still on: incoming references of a deleted row, and the right of a
+    reference deletion judged on the reference's author. -/
+def Defects.asImplemented : Defects := ⟨false, false, false, false, true, true⟩
+/-- /repo before the fixes that this check led to -/
+def Defects.beforeFixes : Defects := ⟨true, true, true, true, true, true⟩
+def Defects.none : Defects := ⟨false, false, false, false, false, false⟩
 
 inductive MErr where
   | rejected | unknownRoom | unknownEntity | deleteNotAllowed
@@ -379,7 +389,7 @@ def deleteRef (df : Defects) (rooms : List Room) (db : Db) (caller : Key) (now :
         | none => .error .unknownRoom
         | some room =>
           -- the code judges the right on the author of the REFERENCE; the row it re-signs may be somebody else's
-          let own := if df.refDeletionResign then edge.author = caller else (edge.author = caller && row.author = caller)
+          let own := if df.refRightOnEdgeAuthor then edge.author = caller else (edge.author = caller && row.author = caller)
           let rt : RightType := if own then .mutateSelf else .mutateAll
           if room.can caller entity now rt then
             let tomb : EdgeTomb :=
